@@ -93,10 +93,10 @@ class List(Expression):
             out += STATUS << True
 
         if self.max_len is not None:
-            # The loop may also have stopped at the upper bound, with the
-            # status of the last element still set. (This can only matter when
-            # a symbolic lower bound turns out to exceed the upper bound.)
-            with out.ELIF(STATUS):
+            # The loop may also have stopped at the upper bound, without any
+            # failing element. (This can only matter when a symbolic lower
+            # bound turns out to exceed the upper bound.)
+            with out.ELIF(LEN(staging) >= Code(self.max_len)):
                 out += RESULT << self.error_func()
                 out += STATUS << False
 
